@@ -4,6 +4,10 @@ import json, os, subprocess
 V = os.path.dirname(os.path.dirname(os.path.abspath(__file__)))
 ALL = ["C%02d" % i for i in range(1, 17)]
 CHECKS = {
+ "C10": dict(cat="exploration", sec="4 C10",
+   technique="exhaustive input enumeration: all byte strings <= 5/6 over a 26-byte alphabet + all lexeme-fragment sequences x separators, span-consistency oracle + independent tokenizer",
+   text="Every byte string up to the bound over one byte per lexer branch is tokenised by the real lexer and checked by a span oracle (tiling, positions, literals, keyword classes, maximal munch, after-newline, stable end of input); well-formed fragment sequences are compared token by token with an independent tokenizer. Complete within the bound: cursor off-by-ones need specific short byte sequences, all of which are enumerated.",
+   note="trusted: R-span and R-tok (xmc/ref/rtok.go, props/c10.go); LF line model, byte columns; NUL-as-EOF recorded as known finding"),
  "C09": dict(cat="model_checking", sec="4 C09",
    technique="explicit-state exploration: all builder call histories <= depth 5/6 (stateless) + BFS with abstract-state dedup to depth 7/9, real SourceMapper vs list model, independent VLQ decoder",
    text="Every operation history up to the bound over a 25-call alphabet is executed on the real builder in lock-step with a reference model and the emitted mappings are decoded by an independent Source Map v3 decoder; every VLQ delta in [-2^20,2^20] is encoded through the public API and decoded. Exhaustive within the bound, which is where delta-reset, name carry-over and continuation-bit bugs live.",
